@@ -43,7 +43,8 @@ def s(r, p=DEFAULT):
 
 
 def num(r):
-    return r.choice(['1', '100.00', '1,234.56', '0.5', '3.', '12', '0', '1,000,000'])
+    # (the lexeme is the number: leading zeros and trailing zeros are part of it)
+    return r.choice(['1', '100.00', '1,234.56', '0.5', '3.', '12', '0', '1,000,000', '1', '12', '007', '00.50', '0042', '1.500'])
 
 
 def expr(r, d=0):
